@@ -616,7 +616,8 @@ def reduce_dim(f, reducedef, fuzzydim=True, metakeys=_metakeys):
     for varkey in inf.variables.keys():
         var = inf.variables[varkey]
         if dimkey not in var.dimensions:
-            p2p.addVariable(inf, outf, varkey)
+            # copy within memory: keeps masked cells masked
+            outf.copyVariable(var, key=varkey)
             continue
 
         axis = list(var.dimensions).index(dimkey)
@@ -964,8 +965,11 @@ def convolve_dim(f, convolve_def):
     dim.setunlimited(f.dimensions[dimkey].isunlimited())
     for vark, var in f.variables.items():
         lconvolve = dimkey in var.dimensions
-        p2p.addVariable(f, outf, vark, data=not lconvolve)
-        if lconvolve:
+        if not lconvolve:
+            # copy within memory: keeps masked cells masked
+            outf.copyVariable(var, key=vark)
+        else:
+            p2p.addVariable(f, outf, vark, data=False)
             axisi = list(var.dimensions).index(dimkey)
             values = np.apply_along_axis(func1d=lambda x_: np.convolve(
                 weights, x_, mode=mode), axis=axisi, arr=var[:])
